@@ -35,8 +35,8 @@ CHECKS = {
    note="For imported members the repository's own test documents that `name = v` in the importer creates a local shadow; the oracle there requires the exporting module's value (read through the module and through an exported getter) to stay unchanged."),
  "C09": dict(cat="exploration", design="§4 C09",
    technique="generated programs + all-paths structural validity predicate over the emitted bytecode (both outcomes of every conditional jump explored), plus a run-time stack-mismatch observation",
-   text="Every function emitted for the enumerated control-flow skeletons (8 loop kinds x wrappers to depth 2 quick / 3 thorough x break/continue/return x module/function), the example corpus and Hypothesis programs of C01/C07/C08/C12/C13/C15/C17 is decoded from the human-readable bytecode and explored over all branch outcomes: jump targets inside the function, no fall-off, done/jmp_pop never close more frames than open, equal open-frame count on every path into an instruction; the program is also run and must not report STACK MISMATCH. Exploration over programs; exhaustive over the paths of each analysed function.",
-   note="Frame effects per opcode are the trusted table (msv/props/c09.py); operand-stack shapes are only observed dynamically. The trace hook of the property's anchor is not used."),
+   text="Every function emitted for the enumerated control-flow skeletons (8 loop kinds x wrappers to depth 2 quick / 3 thorough x break/continue/return x module/function), the example corpus and Hypothesis programs of C01/C07/C08/C12/C13/C15/C17 is decoded from the human-readable bytecode and explored over all branch outcomes: jump targets inside the function, no fall-off, done/jmp_pop never close more frames than open, equal open-frame count on every path into an instruction; a second fixpoint over operand-stack depth intervals reports instructions whose operand requirement is definitely missed, `ret` with more than one operand, and unbounded operand growth; the program is also run and must not report STACK MISMATCH. Exploration over programs; exhaustive over the paths of each analysed function.",
+   note="Frame and operand effects per opcode are the trusted table (msv/props/c09.py, DESIGN.md Appendix C); operand depths are intervals, so only definite violations are reported. The trace hook of the property's anchor is not used."),
  "C06": dict(cat="exploration", design="§4 C06",
    technique="metamorphic property-based testing: folded vs unfolded rendering of enumerated and Hypothesis-generated literal expression trees",
    text="All depth-1 trees over 23 boundary literals of the four kinds and the operators + - * / % << >> & | xor, unary minus, !, get, or (and a reduced-leaf depth-2 family, sampled in quick, complete in thorough), plus Hypothesis trees to depth 3, optionally inside a list literal, are rendered with literals inline and with every literal bound to a variable first; with typed print the two programs must print the same kind and text, and the folded one must be rejected by constant evaluation exactly when the unfolded one fails at run time (a folded form that is accepted and fails identically at run time is tolerated).",
@@ -67,7 +67,7 @@ CHECKS = {
    note="Reference interpreter (lexical environments, cells) trusted; is_closure() modelled as 'has free variables'."),
  "C12": dict(cat="exploration", design="§4 C12",
    technique="property-based testing: Hypothesis-generated optional-handling programs against a reference interpreter, with a position oracle for failing `get`",
-   text="Random programs use == nil, get, `(x) or y` (logging fallbacks make laziness observable), `a ?= e` in statement/if/while position over optional int/str values from variables, parameters, function results, built-in results (wrapped present values) and list elements, at module level, in nested blocks and inside functions, with nil and present operands. stdout must equal the reference interpreter's; a `get` of nil must stop the run with exit status 1, the `unwrap of nil` message and a file:line:col inside that get expression. Exploration of program space; optional class-typed fields are not generated.",
+   text="Random programs use == nil, get, `(x) or y` (logging fallbacks make laziness observable), `a ?= e` in statement/if/while position over optional int / str / list / object values from variables, parameters, function results, built-in results (wrapped present values), list elements and optional class fields, at module level, in nested blocks and inside functions, with nil and present operands. stdout must equal the reference interpreter's; a `get` of nil must stop the run with exit status 1, the `unwrap of nil` message and a file:line:col inside that get expression. Exploration of program space, not exhaustive.",
    note="Reference interpreter trusted; the reported column may be anywhere inside the get expression."),
  "C15": dict(cat="exploration", design="§4 C15",
    technique="property-based testing: Hypothesis-generated expression trees over logging leaves against a reference interpreter's log sequence",
